@@ -7,6 +7,7 @@ package saml2
 
 import (
 	"bytes"
+	"html"
 	"net/url"
 	"crypto/tls"
 	"crypto/x509"
@@ -970,4 +971,37 @@ func vSignatureCovers(root *etree.Element, sigIndex int) bool {
 		vx.notes = append(vx.notes, "verify: "+err.Error())
 	}
 	return err == nil
+}
+
+// ---- C16 natives: scan the real page ----
+
+func vFormCount(out []byte, tag string) int {
+	return strings.Count(strings.ToLower(string(out)), "<"+tag)
+}
+
+// vFormField: value of valueAttr on the first <element ...> (with name="nameAttr" when given); the
+// value is HTML-unescaped; escaped=false when the raw attribute text would break out of the attribute.
+func vFormField(out []byte, element, nameAttr, valueAttr string) (string, bool, bool) {
+	re := regexp.MustCompile(`(?is)<` + regexp.QuoteMeta(element) + `\b([^>]*)>`)
+	for _, m := range re.FindAllStringSubmatch(string(out), -1) {
+		attrs := m[1]
+		if nameAttr != "" && !regexp.MustCompile(`(?i)\bname="`+regexp.QuoteMeta(nameAttr)+`"`).MatchString(attrs) {
+			continue
+		}
+		vm := regexp.MustCompile(`(?is)\b` + regexp.QuoteMeta(valueAttr) + `="([^"]*)"`).FindStringSubmatch(attrs)
+		if vm == nil {
+			continue
+		}
+		raw := vm[1]
+		return html.UnescapeString(raw), true, !strings.ContainsAny(raw, "<>'")
+	}
+	return "", false, false
+}
+
+func vPostedDocumentSigned(b64doc string) bool {
+	b, err := base64.StdEncoding.DecodeString(b64doc)
+	if err != nil {
+		return false
+	}
+	return bytes.Contains(b, []byte("SignatureValue"))
 }
